@@ -7,7 +7,7 @@
 From Coq Require Import List NArith ZArith Bool Arith.
 From Coq.Strings Require Import Byte.
 Import ListNotations.
-From BWExec Require Import Base Values Store Driver Exec Fault Spec BaseProofs StoreProofs ExecProofs FaultProofs History.
+From BWExec Require Import Base Values Store Driver Exec Fault Spec BaseProofs StoreProofs ExecProofs FaultProofs History Pipeline PipelineProofs.
 
 (* ---- for ALL schedules, stores and statements: a consumed failure entry => the statement returns an error ---- *)
 Theorem C20_error_surfaces :
@@ -55,6 +55,27 @@ Proof.
   apply (xexec_frame _ _ _ _ _ _ E g Hg).
 Qed.
 Print Assumptions C20_failure_effects.
+
+(* ---- why no goroutine is left behind and the statement returns (model of the channel protocol only; the tie to
+   the code is the harness watchdog + goroutine count, hence C20 stays PARTIAL).  Pipeline.v: source -> channel ->
+   forwarder -> channel -> consumer, as built by simpleFetch (driver lookup -> main loop -> addTriples) and by
+   constructPlan (template loops -> writer).  n = number of items the source delivers before it closes its channel
+   (fail_before: 0, fail_after j: j, no failure: all); the forwarder may drop any item (lErr), the consumer keeps
+   receiving whatever happens (drainChannel).  For every n, all capacities >= 1 and EVERY schedule: at most 5n+3 steps,
+   and when nothing can move any more all three goroutines have returned. ---- *)
+Theorem C20_pipeline_terminates :
+  forall n c1 c2, 1 <= c1 -> 1 <= c2 ->
+  (forall k q, psteps k (pinit n c1 c2 true) q -> k <= 5 * n + 3) /\
+  (forall k q, psteps k (pinit n c1 c2 true) q -> (forall r, ~ pstep q r) -> final q).
+Proof. exact pipeline_terminates. Qed.
+Print Assumptions C20_pipeline_terminates.
+
+(* a source that returns without closing its channel -- constructPlan.Execute before F13 on a template error --
+   leaves forwarder and consumer blocked for ever *)
+Theorem C20_pipeline_abandoned_leaks_before_F13 :
+  forall c1 c2, exists q, psteps 1 (pinit 0 c1 c2 false) q /\ (forall r, ~ pstep q r) /\ ~ final q.
+Proof. exact pipeline_abandoned_leaks. Qed.
+Print Assumptions C20_pipeline_abandoned_leaks_before_F13.
 
 (* ---- the tree before the fixes did not satisfy C20_error_surfaces: replayable witnesses (History.v) ---- *)
 Theorem C20_show_refuted_before_F12 :
